@@ -79,7 +79,7 @@ static void sw_on_crash(int sig)
 {
         signal(sig, SIG_DFL);
         mcx_violation_clear();
-        mcx_violation(SW.prop, "C03: fatal signal %d (%s) while the real code processed this input", sig, sig == SIGSEGV ? "SIGSEGV" : sig == SIGABRT ? "SIGABRT (assertion or abort)" : sig == SIGALRM ? "watchdog: no progress for 15 s" : "signal");
+        mcx_violation(SW.prop, "C03: fatal signal %d (%s) while the real code processed this input", sig, sig == SIGSEGV ? "SIGSEGV" : sig == SIGABRT ? "SIGABRT (assertion or abort)" : sig == SIGALRM ? "watchdog: no progress for 30 s" : "signal");
         if (sw_cur_bytes) sw_violation(sw_cur_bytes, sw_cur_n, sw_cur_setvars);
         else { SW.violations++; snprintf(SW.msg, sizeof SW.msg, "%s", mcx_violation_msg()); }
         sw_finish("crash");
@@ -91,8 +91,9 @@ static uint64_t sw_wd_last; static int sw_wd_strikes;
 static void sw_on_watchdog(int sig)
 {
         (void)sig;
+        /* only time spent inside one and the same feed of the real code counts */
         uint64_t now = SW.runs + SW.cases + WS.canary_checks;
-        if (now == sw_wd_last) { if (++sw_wd_strikes >= 3) sw_on_crash(SIGALRM); }
+        if (sw_cur_bytes && now == sw_wd_last) { if (++sw_wd_strikes >= 6) sw_on_crash(SIGALRM); }
         else { sw_wd_strikes = 0; sw_wd_last = now; }
 }
 
